@@ -93,8 +93,14 @@ RESIDUES = [
     # select == eval(select_expression) clause, see selection_gen.PREFIX_REGEX
     (6, "SD", "HIS", 7, "protein", "H", _BB + [("CB", "C", "s")]),
     (6, "SD", "LIP", 8, "other", None, [(n, "C", "-") for n in ("C1", "C2", "C3", "C4", "C10", "C11", "C12")]),
+    # lower-case names that merely START with an operator spelling (le, gt, ne, eq, ge, or, and, not, to)
+    # are ordinary bare-word literals
+    (7, "sx", "leu", 9, "other", None, [(n, "C", "-") for n in ("ne2", "eq1", "let", "gea")]),
+    (7, "sx", "gtp", 10, "other", None, [(n, "C", "-") for n in ("orn", "and1", "nota", "tox", "lta")]),
 ]
 _OTHER_BONDS = {"DC": [("O5'", "C5'"), ("C5'", "H5'"), ("C5'", "H5''"), ("C5'", "C3'")], "LIG": [("C3", "O5"), ("C3", "H5")],
+                "leu": [("ne2", "eq1"), ("eq1", "let"), ("let", "gea")],
+                "gtp": [("orn", "and1"), ("and1", "nota"), ("nota", "tox"), ("tox", "lta")],
                 "LIP": [("C1", "C2"), ("C2", "C3"), ("C3", "C4"), ("C4", "C10"), ("C10", "C11"), ("C11", "C12")]}
 # standard atomic weights to 3-4 figures (CRC handbook); thresholds used by the generator stay
 # >= 0.4 away from every one of them, so the 4th figure never matters
@@ -404,7 +410,8 @@ SYM_LOOSE = {"<", "<=", "==", ">", ">="}          # every symbolic comparison ex
 WORD_CMP = {"eq", "ne", "lt", "le", "gt", "ge"}
 HAZARD_ORDER = ["paren-depth>=3", "regex-under-connective", "not-before-infix-comparison",
                 "&&-next-to-symbolic-comparison", "and-next-to-word-comparison",
-                "regex-on-valueless-attribute", "operator-like-literal", "quote-inside-literal"]
+                "regex-on-valueless-attribute", "operator-like-literal", "operator-prefixed-literal",
+                "quote-inside-literal", "integer-list-with-repeats", "integer-list"]
 _OPWORDS = {"and", "or", "not", "to", "eq", "ne", "lt", "le", "gt", "ge"}
 
 
@@ -488,6 +495,11 @@ def hazards(tree, s, atoms):
                 for lit in (part if isinstance(part, tuple) and part and isinstance(part[0], tuple) else (part,)):
                     if isinstance(lit, tuple) and len(lit) == 3 and lit[0] == "str" and lit[1].lower() in _OPWORDS:
                         hz.add("operator-like-literal")
+                    elif isinstance(lit, tuple) and len(lit) == 3 and lit[0] == "str" and \
+                            any(lit[1].lower().startswith(w) for w in _OPWORDS):
+                        hz.add("operator-prefixed-literal")
+            if k == "list" and len(n[2]) >= 4 and all(lit[0] == "num" for lit in n[2]):
+                hz.add("integer-list-with-repeats" if len(set(lit[1] for lit in n[2])) < len(n[2]) else "integer-list")
 
     walk(tree)
     return hz
